@@ -389,6 +389,23 @@ def _check_tracker(case):
                 return False, f"record {rec} does not match result/circuit"
             if record_bits and rec.get("bitstrings") != [list(b) for b in m.bitstrings]:
                 return False, "recorded bitstrings differ"
+        # many short-lived circuits (objects die between calls): every record must describe the circuit of ITS call
+        t2 = MeasurementTrackingBackend(SymbolicSimulator(seed=6), path, record_bits)
+        import gc
+        from orquestra.quantum.circuits import RX
+        for i in range(25):
+            tmpc = Circuit([X(i % 3), RX(0.1 * i)((i + 1) % 3)] + [X(0)] * (i % 4), n_qubits=3)
+            want = json.loads(json.dumps(to_dict(tmpc)))
+            ngates = len(tmpc.operations)
+            if batch:
+                t2.run_batch_and_measure([tmpc], [3])
+            else:
+                t2.run_and_measure(tmpc, 3)
+            rec = json.load(open(path))["raw-data"][-1]
+            del tmpc
+            gc.collect()
+            if rec["circuit"] != want or rec["number_of_gates"] != ngates:
+                return False, f"call {i}: the record describes another circuit than the one that was run"
         return True, "ok"
     finally:
         import shutil
